@@ -50,6 +50,8 @@ pub enum A13 {
     AcceptCancelLast,
     Connect,
     ConnectCancelLast,
+    /// cancel the oldest still-pending connect
+    ConnectCancelFirst,
     ConnectFake,
     SynAckForLastFake,
     CloseOldest,
@@ -63,6 +65,7 @@ pub fn concretize(seq: &[(A13, bool)]) -> Vec<(Ev, bool)> {
     let mut n_accepts: u8 = 0;
     let mut n_connects: u8 = 0;
     let mut burst_base: u8 = 100;
+    let mut cancelled: BTreeSet<u8> = BTreeSet::new();
     for (a, same) in seq {
         let ev = match a {
             A13::SynFresh => {
@@ -105,10 +108,22 @@ pub fn concretize(seq: &[(A13, bool)]) -> Vec<(Ev, bool)> {
                 Ev::ConnectFake { from: 0, fake: 50 }
             }
             A13::ConnectCancelLast => {
-                if n_connects == 0 {
-                    continue;
+                match (0..n_connects).rev().find(|i| !cancelled.contains(i)) {
+                    Some(i) => {
+                        cancelled.insert(i);
+                        Ev::ConnectCancel(i)
+                    }
+                    None => continue,
                 }
-                Ev::ConnectCancel(n_connects - 1)
+            }
+            A13::ConnectCancelFirst => {
+                match (0..n_connects).find(|i| !cancelled.contains(i)) {
+                    Some(i) => {
+                        cancelled.insert(i);
+                        Ev::ConnectCancel(i)
+                    }
+                    None => continue,
+                }
             }
             A13::SynAckForLastFake => Ev::RawSynAck { from: 0, fake: 50 },
             A13::CloseOldest => Ev::CloseOldest,
@@ -190,19 +205,12 @@ pub fn judge_c13(script: &SockScript, l: &SockLog, check_order: bool) -> Vec<SFi
         let mut j = i;
         let mut kinds = BTreeSet::new();
         while j < tl.len() && tl[j].0 == t {
-            match &tl[j].2 {
-                T::Syn(who, cid, seq) => {
-                    kinds.insert(0);
-                    if known.contains(&(who.clone(), *cid)) {
-                        // duplicate of a pending or live request
-                    } else if syns.len() >= 32 && acceptors.is_empty() {
-                        refused.push((who.clone(), *cid, *seq));
-                    } else {
-                        known.insert((who.clone(), *cid));
-                        syns.push_back((who.clone(), *cid, *seq));
-                        // matching happens below; a SYN beyond the backlog with an acceptor waiting is matched at once
-                    }
-                }
+            j += 1;
+        }
+        // within one instant: acceptor calls and cancellations first (their net effect), then the
+        // arrivals in order, matching head to head after each
+        for e in &tl[i..j] {
+            match &e.2 {
                 T::Accept(a) => {
                     kinds.insert(1);
                     acceptors.push_back(*a);
@@ -211,16 +219,33 @@ pub fn judge_c13(script: &SockScript, l: &SockLog, check_order: bool) -> Vec<SFi
                     kinds.insert(2);
                     acceptors.retain(|x| x != a);
                 }
+                _ => {}
             }
-            // match greedily after every entry so that the 32-backlog test sees the right queue length
-            while !syns.is_empty() && !acceptors.is_empty() {
-                let s = syns.pop_front().unwrap();
-                let a = acceptors.pop_front().unwrap();
-                expected.insert(a, s.0);
-            }
-            j += 1;
         }
-        if kinds.contains(&2) && kinds.len() > 1 {
+        while !syns.is_empty() && !acceptors.is_empty() {
+            let s = syns.pop_front().unwrap();
+            let a = acceptors.pop_front().unwrap();
+            expected.insert(a, s.0);
+        }
+        for e in &tl[i..j] {
+            if let T::Syn(who, cid, seq) = &e.2 {
+                kinds.insert(0);
+                if known.contains(&(who.clone(), *cid)) {
+                    // duplicate of a pending or live request
+                } else if syns.len() >= 32 && acceptors.is_empty() {
+                    refused.push((who.clone(), *cid, *seq));
+                } else {
+                    known.insert((who.clone(), *cid));
+                    syns.push_back((who.clone(), *cid, *seq));
+                }
+                while !syns.is_empty() && !acceptors.is_empty() {
+                    let s = syns.pop_front().unwrap();
+                    let a = acceptors.pop_front().unwrap();
+                    expected.insert(a, s.0);
+                }
+            }
+        }
+        if kinds.contains(&2) && kinds.contains(&0) {
             ambiguous = true; // a cancellation in the same instant as an arrival / call: either outcome is fine
         }
         i = j;
@@ -471,13 +496,23 @@ pub fn c13(ctx: &Ctx) -> Outcome {
     explore_c13(ctx, "sock:c13-order", &[SynFresh, SynDup, Accept, AcceptCancelLast, Settle, CloseOldest], len, 64, false, &[1], &mut out);
     explore_c13(ctx, "sock:c13-connect", &[Connect, ConnectCancelLast, Accept, AcceptCancelLast, CloseOldest, Settle], len, 64, false, &[1], &mut out);
     explore_c13(ctx, "sock:c13-backlog", &[SynBurst33, SynFresh, Accept, Settle], ctx.tier.pick(4, 5), 64, false, &[1], &mut out);
-    explore_c13(ctx, "sock:c13-slots", &[ConnectFake, ConnectCancelLast, SynAckForLastFake, Settle], ctx.tier.pick(6, 7), 64, false, &[1], &mut out);
+    explore_c13(ctx, "sock:c13-slots", &[ConnectFake, ConnectCancelLast, ConnectCancelFirst, SynAckForLastFake], ctx.tier.pick(8, 9), 64, false, &[1], &mut out);
     explore_c13(ctx, "sock:c13-limit2", &[SynFresh, Connect, Accept, AcceptCancelLast, CloseOldest, Settle], ctx.tier.pick(4, 5), 2, false, &[1], &mut out);
     let seeds: Vec<u64> = (0..ctx.tier.pick(8u64, 32u64)).collect();
-    explore_c13(ctx, "sock:c13-ties", &[SynFreshNow, Accept, AcceptCancelLast, Settle], ctx.tier.pick(4, 5), 64, true, &seeds, &mut out);
+    explore_c13(ctx, "sock:c13-ties", &[SynFreshNow, Accept, AcceptCancelLast, Settle], ctx.tier.pick(6, 7), 64, true, &seeds, &mut out);
     out.rule = "C13: every sequence of socket events up to the stated length (events separated by a drain, or one adjacent pair in the same instant under every select! seed of a set); reference = two FIFO queues (pending requests <= 32, pending acceptors); distinct_nontrivial = executions with distinct timed traces".into();
     out.assumptions.push("pending requests are raw SYNs from silent fake peers (identified by remote address) or real connects (identified by the token the connector writes first)".into());
     out.assumptions.push("a cancellation in the same instant as an arrival or a call is ambiguous: only leak / duplicate oracles apply there".into());
+    out
+}
+
+/// C08: accept / connect cancellations and closes must not leak table entries
+pub fn c08_leaks(ctx: &Ctx) -> Outcome {
+    let mut out = Outcome::default();
+    use A13::*;
+    explore_c13(ctx, "sock:c08-leaks", &[SynFresh, Accept, AcceptCancelLast, Connect, ConnectCancelLast, CloseOldest, Settle], ctx.tier.pick(4, 5), 64, false, &[1], &mut out);
+    let seeds: Vec<u64> = (0..ctx.tier.pick(4u64, 16u64)).collect();
+    explore_c13(ctx, "sock:c08-leaks-ties", &[SynFreshNow, Accept, AcceptCancelLast, Connect], ctx.tier.pick(3, 4), 64, true, &seeds, &mut out);
     out
 }
 
